@@ -33,7 +33,8 @@ def main():
         pid = p["id"]
         if pid in claimed:
             c = claimed[pid]
-            partial = c.get("partial", [])
+            partial = [x if isinstance(x, str) else ("; ".join(f"{k}: {v}" for k, v in x.items()) if isinstance(x, dict) else str(x))
+                       for x in c.get("partial", [])]
             text = c.get("level_text") or (
                 "Machine-checked Lean 4 theorems (lean/TF/Props/%s.lean) state the property over a formal model for all inputs/"
                 "histories; the model is tied to the current source on every run by the translator (regenerated definitions) and/or "
@@ -51,7 +52,7 @@ def main():
                 "level_claimed": {"category": "proof", "text": text, "design_ref": "DESIGN.md §8 " + pid},
                 "level_note": "Trusted: Lean 4.33 kernel + Mathlib as compiled; axioms propext/Classical.choice/Quot.sound only (audited by "
                               "#print axioms on every run); tools/rs2lean.py; the correspondence harness and driver; rustc/std. "
-                              + " | ".join(c.get("trusted_base", []))[:1500],
+                              + " | ".join(str(x) for x in c.get("trusted_base", []))[:1500],
                 "technique": c.get("technique", "machine-checked proof in Lean 4 (model regenerated from source / correspondence check)"),
             })
         else:
